@@ -118,7 +118,8 @@ theorem analyzeFn_noAttrs {kind : ReceiverKind} {opts : Opts} {sig : Sig} {tg tg
   exact this
 
 /-- attributes of a generated trait: entrait's own, or re-applied ones of the input -/
-theorem traitAttrs_ok (opts : Opts) (ind depMode) (itemAttrs : List Attr) (vis ident tg sup fns mode) :
+theorem traitAttrs_ok (opts : Opts) (ind depMode) (itemAttrs : List Attr) (vis ident tg sup fns mode)
+    (hmode : mode ≠ .rawTrait) :
     (genTraitDef opts ind depMode itemAttrs vis ident tg sup fns mode).attrs.all
       (fun a => entraitOwned a ||
         (itemAttrs.contains a && (a.subKind == .asyncTrait || a.subKind == .automock))) = true := by
@@ -146,6 +147,8 @@ theorem traitAttrs_ok (opts : Opts) (ind depMode) (itemAttrs : List Attr) (vis i
     · simp at ha; subst ha; simp [entraitOwned, C10.mockKind_gated_mockall]
     · simp at ha
   · right
+    have hb : (mode == InputMode.rawTrait) = false := by cases mode <;> simp_all
+    simp only [reappliedSubs, hb, Bool.false_eq_true, if_false] at ha
     have := List.mem_filter.mp ha
     exact ⟨by simpa using this.1, by simpa using this.2⟩
 
@@ -185,7 +188,7 @@ theorem T_C18 (v : Variant) (attr : Toks) (item : Item) (out : Out)
       intro x hx; simp at hx; subst hx; exact analyzeFn_noAttrs h2
     simp only [P_C18, Out.view, View.items, Out.inside, Out.after, List.nil_append, traitsOf, implsOf, Item.attrs,
       List.all_cons, List.all_nil, Bool.and_true, Bool.and_eq_true]
-    refine ⟨⟨traitAttrs_ok .., ?_⟩, ?_⟩
+    refine ⟨⟨traitAttrs_ok _ _ _ _ _ _ _ _ _ _ (by decide), ?_⟩, ?_⟩
     · simp only [genTraitDef]; exact traitMembers_ok _ _ _ hf
     · rw [him]; exact ⟨implAttrs_ok _, implMembers_ok _ _ _ hf⟩
   | mod_ m =>
@@ -198,7 +201,7 @@ theorem T_C18 (v : Variant) (attr : Toks) (item : Item) (out : Out)
         (fun s tg0 tf tg1 han => analyzeFn_noAttrs han) _ _ _ _ h2
       simp only [P_C18, Out.view, View.items, Out.inside, Out.after, List.cons_append, List.nil_append, traitsOf, implsOf,
         Item.attrs, List.all_cons, List.all_nil, Bool.and_true, Bool.and_eq_true]
-      refine ⟨⟨traitAttrs_ok .., ?_⟩, ?_⟩
+      refine ⟨⟨traitAttrs_ok _ _ _ _ _ _ _ _ _ _ (by decide), ?_⟩, ?_⟩
       · simp only [genTraitDef]; exact traitMembers_ok _ _ _ hf
       · rw [him]; exact ⟨implAttrs_ok _, implMembers_ok _ _ _ hf⟩
   | impl m =>
